@@ -71,7 +71,12 @@ def expectations(tag, R):
 def gen(tier, rng):
     L = []
     if tier == "quick":
-        pairs = [(I32, I32), (U32, U32), (I32, U32), (U32, I32), (I8, I8), (U8, I8), (I16, U64), (I64, I64), (U64, U64), (I64, U64), (U64, I32), (I32, I64)]
+        # one representative (at least) of every class {lhs narrower / same / wider} x {ss, uu, su, us}: a predicate that
+        # looks at the wrong operand's type only shows when the widths differ in one particular direction (seeded change M-C07-1)
+        pairs = [(I32, I32), (I32, I64), (I64, I32), (I8, I8), (I32, I8), (I64, I16),
+                 (U32, U32), (U32, U64), (U64, U32), (U8, U8),
+                 (I32, U32), (I16, U64), (I64, U32), (I64, U64),
+                 (U32, I32), (U8, I8), (U64, I32), (U32, I64), (U64, U64), (I64, I64)]
         sig_pairs = [(I32, I32), (U32, I32), (I64, U64), (U8, U8)]
     else:
         ts = ALL64
@@ -196,7 +201,7 @@ def decide_sets(gk, gref, var, domain, zsets, expect, signed_free, rbits, exact=
     return verdict, details
 
 
-FLOOR = {"quick": 1500, "thorough": 10000}
+FLOOR = {"quick": 2500, "thorough": 10000}
 
 
 def run(tier, seed, work):
